@@ -21,12 +21,13 @@ VARIABLES res, pc
 avars == <<gr, live, steps, hist, res, pc>>
 
 PairsOver(N) == IF SelfLoops THEN N \X N ELSE {e \in N \X N : e[1] # e[2]}
-Family == UNION {{[nodes |-> N, edges |-> E] : E \in SUBSET PairsOver(N)} : N \in NodeSets}
 
 NoRes == [cyclic |-> FALSE, sorts |-> {}, reach |-> {}, red |-> {}, clo |-> {},
           initial |-> {}, terminal |-> {}, flat |-> Empty, ord |-> {}]
 
-AInit == /\ \E G \in Family : (OnlyDags => ~Cyclic(G)) /\ gr = [s \in Slots |-> G]
+AInit == /\ \E N \in NodeSets : \E E \in SUBSET PairsOver(N) :          \* the family
+              LET G == [nodes |-> N, edges |-> E] IN
+              (OnlyDags => ~Cyclic(G)) /\ gr = [s \in Slots |-> G]
          /\ live = Slots /\ steps = 0 /\ hist = <<>>
          /\ res = NoRes /\ pc = "todo"
 
